@@ -433,6 +433,11 @@ from ..through_time import make_rule as _mk_tt, make_t2 as _mk_t2
 _through_time = _mk_tt("C17")
 _small_edits = _mk_t2("C17")
 
+def _interval_order_restored(ctx):
+    from .c14 import r4_caches_and_permutations
+    with ctx.only("permute", "permuted", "scanned"):
+        r4_caches_and_permutations(ctx)    # sequences fetched in a sorted order are put back with the inverse permutation
+
 RULES = [
     ("C17-R1", r1_roles),
     ("C17-R2", r2_byte_arithmetic),
@@ -440,4 +445,5 @@ RULES = [
     ("C17-R4", r4_fresh_results_and_slot_memos),
     ("C17-T1", _through_time),
     ("C17-T2", _small_edits),
+    ("C17-R5", _interval_order_restored),
 ]
